@@ -22,6 +22,7 @@ Require Import V.Model.StreamSys.
 Require Import V.Spec.Stream.
 Require Import V.Proofs.C04Proofs.
 Require Import V.Proofs.StreamRefine.
+Require Import V.Proofs.StreamExcl.
 Require Import V.Proofs.C01Theorems.
 Open Scope Z_scope.
 
@@ -66,3 +67,34 @@ Theorem C01_drained : forall init tlen mtu ses str n0 off0 m rv,
   im_pos (sy_img s2) = pos_after (sg_p0 (sgeom_of tlen mtu n0 off0)) (sp_stream sp).
 Proof. exact shared_drained. Qed.
 Print Assumptions C01_drained.
+
+(* ---- the same for the ExclusivePublication (constructor as repaired by fixes/C04-excl-new.diff) ---- *)
+Theorem C01_exclusive_starts : forall init tlen mtu ses str n0 off0, handover_ok init tlen mtu n0 off0 ->
+  exists s0, sys0_exclusive init tlen mtu ses str n0 off0 = Ok s0.
+Proof. exact exclusive_starts. Qed.
+Print Assumptions C01_exclusive_starts.
+
+Theorem C01_fidelity_exclusive : forall init tlen mtu ses str n0 off0 m rv,
+  handover_ok init tlen mtu n0 off0 ->
+  forall s0, sys0_exclusive init tlen mtu ses str n0 off0 = Ok s0 ->
+  forall ops, contract exclusive m rv s0 ops = true ->
+  let sp := spec_run (sgeom_of tlen mtu n0 off0) spec0 (sys_events exclusive m rv s0 ops) in
+  is_prefix (sp_del sp) (map fst (sp_acc sp)) /\
+  sp_ok sp = true /\ Forall (fun mp => snd mp mod 32 = 0) (sp_acc sp) /\ increasing (map snd (sp_acc sp)).
+Proof. exact exclusive_fidelity. Qed.
+Print Assumptions C01_fidelity_exclusive.
+
+Theorem C01_drained_exclusive : forall init tlen mtu ses str n0 off0 m rv,
+  handover_ok init tlen mtu n0 off0 ->
+  forall s0, sys0_exclusive init tlen mtu ses str n0 off0 = Ok s0 ->
+  forall ops limit,
+  contract exclusive m rv s0 (ops ++ [SPoll limit]) = true -> 0 < limit ->
+  let s1 := sys_run exclusive m rv s0 ops in
+  let s2 := sys_run exclusive m rv s0 (ops ++ [SPoll limit]) in
+  im_pos (sy_img s2) = im_pos (sy_img s1) -> sy_open s1 = false ->
+  let sp := spec_run (sgeom_of tlen mtu n0 off0) spec0 (sys_events exclusive m rv s0 (ops ++ [SPoll limit])) in
+  sp_del sp = map fst (sp_acc sp) /\
+  xpub_position m (sy_pub s2) = (if ps_closed (x_pub (sy_pub s2)) then Err Closed else Ok (im_pos (sy_img s2))) /\
+  im_pos (sy_img s2) = pos_after (sg_p0 (sgeom_of tlen mtu n0 off0)) (sp_stream sp).
+Proof. exact exclusive_drained. Qed.
+Print Assumptions C01_drained_exclusive.
